@@ -163,18 +163,25 @@ func wrongInst(inst ir.Instruction) (uint64, error) {
 	return 0, fmt.Errorf("parsed instruction is %T", inst)
 }
 
+// otherType: the parsed module holds the keyword as a value of another Go type than the enumerated
+// type it was printed from.
+type otherType struct{ typ string }
+
+func (o otherType) Error() string { return "held as " + o.typ }
+
 func firstFuncAttr(f *ir.Func) (uint64, error) {
 	for _, a := range f.FuncAttrs {
 		if e, ok := a.(enum.FuncAttr); ok {
 			return uint64(e), nil
 		}
 	}
-	// the parser may hold a keyword in a richer attribute type (`uwtable` becomes ir.UnwindTable): such an
-	// attribute denotes the enum value whose keyword it prints (decided by the real FromString table)
+	// the parser may hold a keyword in a richer attribute type (`uwtable` becomes ir.UnwindTable): the
+	// attribute denotes the enum value whose keyword it prints (decided by the real FromString table),
+	// but it is not the value that was printed -- reported as otherType by roundTrip
 	if len(f.FuncAttrs) == 1 {
 		var v uint64
 		if _, p := mbt.Guard(func() { v = uint64(asmenum.FuncAttrFromString(f.FuncAttrs[0].String())) }); !p {
-			return v, nil
+			return v, otherType{fmt.Sprintf("%T", f.FuncAttrs[0])}
 		}
 	}
 	return 0, fmt.Errorf("no enum function attribute among %d attributes", len(f.FuncAttrs))
@@ -267,6 +274,53 @@ func sites() []site {
 		}
 		return uint64(m.ComdatDefs[0].Kind), nil
 	}}}})
+	// --- aliases and ifuncs: the same six families, printed by Alias.LLString / IFunc.LLString
+	for _, gf := range []struct {
+		fam, suffix string
+		setA        func(a *ir.Alias, v uint64)
+		getA        func(a *ir.Alias) uint64
+		setI        func(a *ir.IFunc, v uint64)
+		getI        func(a *ir.IFunc) uint64
+	}{
+		{"Linkage", "linkage", func(a *ir.Alias, v uint64) { a.Linkage = enum.Linkage(v) }, func(a *ir.Alias) uint64 { return uint64(a.Linkage) },
+			func(a *ir.IFunc, v uint64) { a.Linkage = enum.Linkage(v) }, func(a *ir.IFunc) uint64 { return uint64(a.Linkage) }},
+		{"Visibility", "visibility", func(a *ir.Alias, v uint64) { a.Visibility = enum.Visibility(v) }, func(a *ir.Alias) uint64 { return uint64(a.Visibility) },
+			func(a *ir.IFunc, v uint64) { a.Visibility = enum.Visibility(v) }, func(a *ir.IFunc) uint64 { return uint64(a.Visibility) }},
+		{"DLLStorageClass", "dllstorage", func(a *ir.Alias, v uint64) { a.DLLStorageClass = enum.DLLStorageClass(v) }, func(a *ir.Alias) uint64 { return uint64(a.DLLStorageClass) },
+			func(a *ir.IFunc, v uint64) { a.DLLStorageClass = enum.DLLStorageClass(v) }, func(a *ir.IFunc) uint64 { return uint64(a.DLLStorageClass) }},
+		{"TLSModel", "tls", func(a *ir.Alias, v uint64) { a.TLSModel = enum.TLSModel(v) }, func(a *ir.Alias) uint64 { return uint64(a.TLSModel) },
+			func(a *ir.IFunc, v uint64) { a.TLSModel = enum.TLSModel(v) }, func(a *ir.IFunc) uint64 { return uint64(a.TLSModel) }},
+		{"Preemption", "preemption", func(a *ir.Alias, v uint64) { a.Preemption = enum.Preemption(v) }, func(a *ir.Alias) uint64 { return uint64(a.Preemption) },
+			func(a *ir.IFunc, v uint64) { a.Preemption = enum.Preemption(v) }, func(a *ir.IFunc) uint64 { return uint64(a.Preemption) }},
+		{"UnnamedAddr", "unnamed_addr", func(a *ir.Alias, v uint64) { a.UnnamedAddr = enum.UnnamedAddr(v) }, func(a *ir.Alias) uint64 { return uint64(a.UnnamedAddr) },
+			func(a *ir.IFunc, v uint64) { a.UnnamedAddr = enum.UnnamedAddr(v) }, func(a *ir.IFunc) uint64 { return uint64(a.UnnamedAddr) }},
+	} {
+		gf := gf
+		ss = append(ss, site{Fam: gf.fam, Name: "alias." + gf.suffix, Shapes: []shape{{"alias of a global", func(v uint64) *ir.Module {
+			m := ir.NewModule()
+			g := m.NewGlobalDef("g", constant.NewInt(i32, 0))
+			gf.setA(m.NewAlias("a", g), v)
+			return m
+		}, func(m *ir.Module) (uint64, error) {
+			if len(m.Aliases) != 1 {
+				return 0, fmt.Errorf("%d aliases", len(m.Aliases))
+			}
+			return gf.getA(m.Aliases[0]), nil
+		}}}})
+		ss = append(ss, site{Fam: gf.fam, Name: "ifunc." + gf.suffix, Shapes: []shape{{"ifunc with a resolver", func(v uint64) *ir.Module {
+			m := ir.NewModule()
+			fp := types.NewPointer(types.NewFunc(types.Void))
+			res := m.NewFunc("resolver", fp)
+			res.NewBlock("").NewRet(constant.NewNull(fp))
+			gf.setI(m.NewIFunc("f", res), v)
+			return m
+		}, func(m *ir.Module) (uint64, error) {
+			if len(m.IFuncs) != 1 {
+				return 0, fmt.Errorf("%d ifuncs", len(m.IFuncs))
+			}
+			return gf.getI(m.IFuncs[0]), nil
+		}}}})
+	}
 	// --- function headers
 	noParams := func() []*ir.Param { return nil }
 	ss = append(ss,
@@ -405,6 +459,35 @@ func sites() []site {
 			return wrongInst(i)
 		}}),
 	)
+	// calling convention on the terminators that call
+	ss = append(ss, site{Fam: "CallingConv", Name: "invoke.callingconv", Shapes: []shape{{"invoke", func(v uint64) *ir.Module {
+		m := ir.NewModule()
+		pers := m.NewFunc("pers", i32)
+		pers.Sig.Variadic = true
+		callee := m.NewFunc("callee", types.Void)
+		callee.CallingConv = enum.CallingConv(v)
+		f := m.NewFunc("f", types.Void)
+		f.Personality = pers
+		entry, ok, lp := f.NewBlock("entry"), f.NewBlock("ok"), f.NewBlock("lp")
+		entry.NewInvoke(callee, nil, ok, lp).CallingConv = enum.CallingConv(v)
+		ok.NewRet(nil)
+		lp.NewLandingPad(types.NewStruct(types.NewPointer(types.I8), i32)).Cleanup = true
+		lp.NewRet(nil)
+		return m
+	}, func(m *ir.Module) (uint64, error) {
+		f, err := fn(m, 2)
+		if err != nil {
+			return 0, err
+		}
+		if len(f.Blocks) != 3 {
+			return 0, fmt.Errorf("unexpected body")
+		}
+		inv, ok := f.Blocks[0].Term.(*ir.TermInvoke)
+		if !ok {
+			return 0, fmt.Errorf("terminator is %T", f.Blocks[0].Term)
+		}
+		return uint64(inv.CallingConv), nil
+	}}}})
 	// landingpad clause
 	ss = append(ss, site{Fam: "ClauseType", Name: "landingpad.clause", Shapes: []shape{{"invoke+landingpad", func(v uint64) *ir.Module {
 		m := ir.NewModule()
